@@ -16,7 +16,8 @@ LEVEL = 'exploration'
 RULE = ('Hypothesis type-directed programs (1-6 statements, nesting <= 4, host-supplied names of every type) over every '
         'operator, statement form, slice form and deterministic builtin, rendered fully parenthesised; operands and dict '
         'keys may pop from / measure host lists (evaluation order is observable); 1 case in 6 runs after the shared '
-        'parser was given a text that fails (unclosed brackets, illegal characters, runtime and ops-limit errors); the reference '
+        'parser was given a text that fails (unclosed brackets, illegal characters, runtime and ops-limit errors), 1 in 6 after it '
+        'evaluated, with no names mapping, a program that binds variables, lambdas and names of builtins; the reference '
         'interpreter (sqv/spec/refsem.py) runs on the tree the frozen reference parser derives from the text; compared: outcome class '
         '(value / ParserError / other Exception), canonical value (type class + exact Decimal representation), host '
         'names afterwards (also after a failure), and charges == node entries == reference node evaluations. '
@@ -46,11 +47,30 @@ POISON = ['max(1, 2', 'foo(1 2)', '[1, 2 ? 3]', '1 + 2)', '{"a": [1, (2', 'x = [
           'del [1][3]', '[3, 1] | sorted(v => undefined_name_9)', '((1)', '[(]', 'a = 1 +\n2', '#only a comment', '', '\n\n', 'x.']
 
 
-def run_source(src, env, poison=None):
-    """-> (failures, info) ; env = plain-data names; poison = a text the shared parser is given first (it may fail in any way)"""
+# earlier, successful calls made WITHOUT a names mapping (the documented default): what they bind - variables, names of
+# builtins, lambdas - belongs to that call alone
+PRIOR = ['keys = [1, 2]\nvalues = 3\nitems = "s"', 'len = 5\nsum = len\nmin = 1\nmax = 2', 'map = 1\nfilter = 2\nreduce = 3\nsorted = 4',
+         'str = 1\nint = 2\nlist = 3\ndict = 4', 'a = 1\nb = [1, 2]\nc = {"k": 1}\nx = 9\nn = 2\ns = "s"\nl = [0]\nd = {}',
+         'abs = v => 0 - 1\nround = v => 7\npush = 1\npop = 2', 'f = v => v + 1\ng = f\nf(1)', 'upper = 1\nlower = 2\nsplit = 3\njoin = 4\nreplace = 5',
+         'v = 1\nw = 2\ni = 3\nk = 4\nacc = 5\nt = 6\ne = 7']
+
+
+def run_source(src, env, poison=None, prior=None):
+    """-> (failures, info) ; env = plain-data names; poison = a text the shared parser is given first (it may fail in any way);
+    prior = a text the shared parser evaluates first with no names mapping at all (it succeeds)"""
     from smartquery import ParserError
     p = parser()
     case = {'src': src, 'env': core.enc(env)}
+    if prior is not None:
+        case['prior'] = prior
+        try:
+            p.eval(prior)
+        except RecursionError:
+            return [], {'discard': 'recursion'}
+        except Exception as e:  # noqa  the prior texts are fixed, well-typed programs of plain assignments: each has a value
+            return [Failure('class:value-vs-error:nameless-call', f'{prior!r} evaluated without a names mapping (on a parser that '
+                            f'evaluated other programs before): reference outcome value; implementation {type(e).__name__}: {e}',
+                            case)], {'outcome': 'value', 'ops': 0}
     if poison is not None:
         case['poison'] = poison
         try:
@@ -108,7 +128,7 @@ def run_source(src, env, poison=None):
 
 
 def run_case(case):
-    return run_source(case['src'], core.dec(case['env']), case.get('poison'))[0]
+    return run_source(case['src'], core.dec(case['env']), case.get('poison'), case.get('prior'))[0]
 
 
 CONTAINER_LABELS = ('literal:', 'index:', 'slice:', 'lambda', 'fn:map', 'fn:filter', 'fn:reduce', 'fn:sorted', 'stmt:setitem',
@@ -135,17 +155,20 @@ def run_job(job):
     def cases(draw):
         c = draw(typed.programs(max_depth=depth, effects=True))
         k = draw(hst.integers(0, 6 * len(POISON) - 1))
-        return c + (POISON[k] if k < len(POISON) else None,)
+        j = draw(hst.integers(0, 6 * len(PRIOR) - 1))
+        return c + (POISON[k] if k < len(POISON) else None, PRIOR[j] if j < len(PRIOR) else None)
 
     def check(c):
-        stmts, env, labels, poison = c
+        stmts, env, labels, poison, prior = c
         try:
             src = render(stmts)
         except ValueError as e:
             raise core.HarnessError(f'unparse: {e}')
-        fails, info = run_source(src, env, poison)
+        fails, info = run_source(src, env, poison, prior)
         if poison is not None:
             labels = labels + ['after-failed-call-on-same-parser']
+        if prior is not None:
+            labels = labels + ['after-nameless-call-on-same-parser']
         if 'discard' in info:
             st.add('discard:' + info['discard'])
             return hyp.Result(discard=True)
